@@ -56,8 +56,18 @@ def issue : UState → List Req → List Str × UState
       let b := issue a.2 rs
       (a.1 :: b.1, b.2)
 
-/-- `UniqueNameGenerator.reset()`: a fresh, empty index map. -/
+/-- `UniqueNameGenerator.reset()`: a fresh, empty index map — ALL domains (the first component of the key: `"c"`,
+`"cpp"`, `"py"`, `"html"`) are cleared, not only the target language's. -/
 def resetState : UState := []
+
+/-- A reset that clears only one domain (what the code does NOT do; kept to show why: a template may borrow another
+language's unique-name filter through `ln.<lang>.*`). -/
+def resetDomain : UState → Str → UState
+  | [], _ => []
+  | (k, n) :: rest, d => if k.1 = d then resetDomain rest d else (k, n) :: resetDomain rest d
+
+def namesInFileDomainReset (target : Str) (prior : UState) (reqs : List Req) : List Str :=
+  (issue (resetDomain prior target) reqs).1
 
 /-- Names issued while one file is rendered, given the state left by whatever ran before (the code as it is:
 reset first). -/
